@@ -24,6 +24,14 @@ def main():
     results = json.load(open(respath)) if os.path.exists(respath) else {}
     if sh("git -C %s status --porcelain" % REPO).stdout.strip():
         print("refusing: /repo working tree is dirty"); return 2
+    # EVIDENCE-BACKUP: runs on a mutated tree must not leave their evidence files behind
+    import shutil, tempfile
+    evdir = os.path.join(VERIF, "evidence")
+    evbak = os.path.join(VERIF, ".work", "evidence-backup-%d" % os.getpid())
+    shutil.rmtree(evbak, ignore_errors=True)
+    shutil.copytree(evdir, evbak)
+    import atexit
+    atexit.register(lambda: (shutil.rmtree(evdir, ignore_errors=True), shutil.copytree(evbak, evdir), shutil.rmtree(evbak, ignore_errors=True)))
     for m in muts:
         if not re.search(a.only, m["id"]):
             continue
